@@ -5,21 +5,23 @@
      new:        kind, dec, secs (per output: is it a section output), sts (per output: index of its stream)
      quiet:      g (outputs the setter call configures), q          verbosity: g, v
      write:      role ("io"|"output"|"section"), name, o (output the call is made on; io: 1), adr (outputs the caller
-                 addresses: io entries - all of them), f (flag word, -1 = None / not passed), hasText, t (id of the
-                 text: the text is the marker m<t>.), res ("ok" or the exception class),
+                 addresses: io entries - all of them), f (flag word, -1 = None / not passed), t (id of the text), sh (its
+                 shape: the marker m<t>. alone / ending in a newline / after a line break / between blanks, or - without
+                 a marker - empty / blanks / a newline), hasText (the entry takes a text and the shape has a marker), res ("ok" or the exception class),
                  ids (per stream: marker ids found in what arrived during the call), any (per stream: did any byte arrive)
    P-clauses: P.gate.closed, P.gate.open, P.gate.leak.   A-clauses: A.reach (the delegation model predicts the same).   *)
 EXTENDS OutputGate, TraceKit
 
-VARIABLES tid, l
-tvars == <<vars, tid, l>>
+VARIABLES tid, l,
+          mute     \* ids of texts written without a marker (they cannot be recognised in what arrives)
+tvars == <<vars, tid, l, mute>>
 T == Traces[tid]
 Ev == T[l]
 
 TKinds == {"output", "section", "io", "iosec", "sections", "?"}
 TDecs == BOOLEAN
 
-TInit == /\ tid \in 1..NTraces /\ l = 1
+TInit == /\ tid \in 1..NTraces /\ l = 1 /\ mute = {}
          /\ obj = [kind |-> "?", dec |-> FALSE] /\ outs = <<>>
          /\ seen = {} /\ shut = {} /\ next = 1 /\ last = [op |-> "init"]
 Adv == l' = l + 1 /\ tid' = tid
@@ -30,12 +32,12 @@ TNew == /\ Is("new") /\ Adv
         /\ Check(tid, l, "H.new", "", Len(Ev.secs) = Len(Ev.sts) /\ \A k \in DOMAIN Ev.sts : Ev.sts[k] \in Streams)
         /\ obj' = [kind |-> Ev.kind, dec |-> Ev.dec]
         /\ outs' = [k \in 1..Len(Ev.secs) |-> Out(Ev.secs[k], Ev.sts[k])]
-        /\ seen' = {} /\ shut' = {} /\ next' = 1 /\ last' = [op |-> "new"]
+        /\ seen' = {} /\ shut' = {} /\ next' = 1 /\ last' = [op |-> "new"] /\ mute' = {}
 
-TQuiet == /\ Is("quiet") /\ Adv
+TQuiet == /\ Is("quiet") /\ Adv /\ UNCHANGED mute
           /\ Check(tid, l, "H.group", "", SetOf(Ev.g) \subseteq DOMAIN outs)
           /\ SetQuiet(SetOf(Ev.g), Ev.q)
-TVerbosity == /\ Is("verbosity") /\ Adv
+TVerbosity == /\ Is("verbosity") /\ Adv /\ UNCHANGED mute
               /\ Check(tid, l, "H.group", "", SetOf(Ev.g) \subseteq DOMAIN outs /\ Ev.v \in Levels)
               /\ SetVerbosity(SetOf(Ev.g), Ev.v)
 
@@ -48,7 +50,8 @@ TWrite ==
   /\ LET e == Ev
          adr == SetOf(e.adr)
      IN /\ Check(tid, l, "H.write", "", adr # {} /\ adr \subseteq DOMAIN outs /\ e.o \in DOMAIN outs /\ e.f \in FlagWords
-                                         /\ Len(e.ids) = 2 /\ Len(e.any) = 2)
+                                         /\ Len(e.ids) = 2 /\ Len(e.any) = 2 /\ e.sh \in MarkShapes \cup NoMarkShapes
+                                         /\ (e.sh \in NoMarkShapes => ~e.hasText))
         \* nothing reaches the stream of an addressed output whose gate is shut for this call
         /\ Check(tid, l, "P.gate.closed", KeyOf(e),
                  \A x \in adr : ~Open(outs[x], e.f) => (~e.any[outs[x].st] /\ e.ids[outs[x].st] = <<>>))
@@ -61,16 +64,17 @@ TWrite ==
         /\ shut' = IF e.hasText /\ \A x \in adr : ~Open(outs[x], e.f) THEN shut \cup {e.t} ELSE shut
         /\ next' = next + 1 /\ UNCHANGED obj
         /\ last' = [op |-> "write"]
+        /\ mute' = IF e.sh \in NoMarkShapes THEN mute \cup {e.t} ELSE mute
         /\ IF Known(e.role, e.name) /\ e.res = "ok" /\ (HasFlags(e.role, e.name) \/ e.f = NoFlags)
            THEN LET tgt == TargetOf(e.role, e.name, e.o)
                     res == Call(outs, obj.dec, e.role, e.name, e.o, e.f, e.t)
                 IN /\ outs' = res.outs
                    /\ Note(tid, l, "A.reach",
-                           \A s \in Streams : /\ SetOf(e.ids[s]) = (IF s = outs[tgt].st THEN res.ids ELSE {})
-                                              /\ e.any[s] = (IF s = outs[tgt].st THEN res.any ELSE FALSE))
+                           \A s \in Streams : /\ SetOf(e.ids[s]) = (IF s = outs[tgt].st THEN res.ids \ mute' ELSE {})
+                                              /\ (e.sh # "empty" => e.any[s] = (IF s = outs[tgt].st THEN res.any ELSE FALSE)))
            ELSE outs' = outs
 
-TDone == /\ l = Len(T) + 1 /\ l' = l + 1 /\ tid' = tid /\ UNCHANGED vars /\ Accept(tid)
+TDone == /\ l = Len(T) + 1 /\ l' = l + 1 /\ tid' = tid /\ UNCHANGED <<vars, mute>> /\ Accept(tid)
 
 TNext == TNew \/ TQuiet \/ TVerbosity \/ TWrite \/ TDone
 TSpec == TInit /\ [][TNext]_tvars
